@@ -314,6 +314,13 @@ def runner(rep, tier, seed, replay):
             pick += rnd.sample(by[k], min(len(by[k]), 40))
         argcases = pick
     judge_args(rep, argcases)
+    # conformance of the pass itself: the real expand_args must produce exactly what the model's Splice produces
+    pgot = inproc_map("rerender", [{"id": i, "line": c["line"], "args": c["args"]} for i, c in enumerate(argcases)], timeout=20)
+    pdrift = [c["line"] for c, g in zip(argcases, pgot) if not g or g.get("rendered") != c.get("spliced")]
+    if pdrift:
+        log("[C16] positional-pass drift on %d cases, e.g. %r" % (len(pdrift), pdrift[:3]))
+    rep.cov["positional_pass_drift"] = len(pdrift)
+    drift += len(pdrift)
     rep.cov["distinct_nontrivial"] = len(distinct)
     rep.cov["traces_validated_against_impl"] = rep.cov["evaluations"]
     rep.cov["inprocess_lines"] = len(cases)
